@@ -65,3 +65,137 @@ Theorem C04_durable_quorum :
       forall z, In z Q -> (k <= length (l_dlog (ln s z)))%nat /\ firstn k (l_dlog (ln s z)) = firstn k (llog s T).
 Proof. exact durable_quorum. Qed.
 Print Assumptions C04_durable_quorum.
+
+
+(* ====================================================================== *)
+(* ==== node level ====================================================== *)
+(* ====================================================================== *)
+(* TWO LEVELS, as in Props/C05.v: above, the abstract protocol (quorum durability and its
+   consequences are cross-node); here, ONE node of the executable model M/Raft.v under the
+   log invariant LI of C14, per call; proofs in M/RaftProofsC05.v; the link is the trace
+   acceptor (P/LogAccept.v).  The M modules are imported here, after the P-level statements.
+   PROVED
+   (4) the leader commit rule (C04_node_maybe_commit_rule): maybe_commit = Ok (r', true) means
+       the commit index becomes EXACTLY the quorum index of the matched indexes
+       (fst (prs_maximal_committed_index (r_prs r)), characterised by Props/C11.v), strictly
+       higher than before, within the log, and the entry there has the leader's term; nothing
+       else of the log changes.  = Ok (r', false) means r' = r.
+       The leader counts itself only for what it has persisted: appending never touches the
+       progress tracker (C04_node_append_entry_prs); a term change restarts the own matched
+       index at persisted (C04_node_reset_self_matched, .._become_leader_self_matched); after
+       that only on_persist_entries raises it, to an index i with persisted = i afterwards and
+       the storage holding term t at i (C04_node_on_persist_entries_self_matched); bcast_append
+       leaves the own progress alone.
+   (5) the follower: a heartbeat moves the commit index to max(old, m_commit), never beyond
+       last_index (C04_node_handle_heartbeat_commit); commit_to's range check is panic site
+       1412, which fires exactly when m_commit is above both the commit index and the last
+       index (C04_node_handle_heartbeat_panics_1412); an accepted append moves it to
+       max(old, min(m_commit, m_index + len)) (C05_node_append_check in Props/C05.v); the
+       leader builds a heartbeat with m_commit = min(matched, committed)
+       (C13_heartbeat_commit), so a follower is never told to commit beyond what the leader
+       recorded as acknowledged by it.
+   NOT PROVED here: that a quorum of matched indexes means quorum durability (cross-node: P
+       level above, C04_commit_point_rule / C04_ack_record_rule). *)
+From RV Require Import Base.IdSet M.Util M.UtilProofs M.Proto M.MemStorage M.MemStorageProofs
+  M.Inflights M.Progress M.RaftLog M.ConfChange M.Msg M.Raft M.RawNode M.RaftProofs
+  M.RaftLogProofs M.RaftLogProofsOps M.RaftLogProofsStore M.RaftLogProofsSlice M.RaftLogProofsHistory
+  M.RaftProofsC15 M.RaftProofsC09 M.RaftProofsC08 M.RaftProofsC13 M.RaftProofsC07
+  M.RaftProofsRepInv M.RaftProofsC05.
+From RecordUpdate Require Import RecordSet.
+Import RecordSetNotations.
+
+(* (4) the leader commit rule *)
+Theorem C04_node_maybe_commit_rule :
+  forall rw r r',
+  Raft.maybe_commit r = Ok (r', true) -> LI rw r ->
+  let mci := fst (prs_maximal_committed_index (r_prs r)) in
+  committed (r_log r') = mci /\ committed (r_log r) < mci /\ mci <= last_index (r_log r)
+  /\ ll_term (abs (r_log r)) mci = SOk (r_term r)
+  /\ abs (r_log r') = abs (r_log r) /\ persisted (r_log r') = persisted (r_log r)
+  /\ applied (r_log r') = applied (r_log r).
+Proof. exact maybe_commit_rule. Qed.
+Print Assumptions C04_node_maybe_commit_rule.
+
+Theorem C04_node_maybe_commit_false :
+  forall r r',
+  Raft.maybe_commit r = Ok (r', false) -> r' = r.
+Proof. exact maybe_commit_false. Qed.
+Print Assumptions C04_node_maybe_commit_false.
+
+(* the leader counts itself only for what it has persisted *)
+Theorem C04_node_append_entry_prs :
+  forall r es r' ok,
+  append_entry r es = Ok (r', ok) -> r_prs r' = r_prs r.
+Proof. exact append_entry_prs. Qed.
+Print Assumptions C04_node_append_entry_prs.
+
+Theorem C04_node_reset_self_matched :
+  forall r t r' pr,
+  reset r t = Ok r' -> get_pr r (r_id r) = Some pr ->
+  exists pr', get_pr r' (r_id r') = Some pr' /\ matched pr' = persisted (r_log r)
+              /\ r_id r' = r_id r /\ r_log r' = r_log r.
+Proof. exact reset_self_matched. Qed.
+Print Assumptions C04_node_reset_self_matched.
+
+Theorem C04_node_become_leader_self_matched :
+  forall r r' pr,
+  become_leader r = Ok r' -> get_pr r (r_id r) = Some pr ->
+  exists pr', get_pr r' (r_id r) = Some pr' /\ matched pr' = persisted (r_log r).
+Proof. exact become_leader_self_matched. Qed.
+Print Assumptions C04_node_become_leader_self_matched.
+
+Theorem C04_node_maybe_commit_self :
+  forall r r' b pr,
+  Raft.maybe_commit r = Ok (r', b) -> get_pr r (r_id r) = Some pr ->
+  exists pr', get_pr r' (r_id r) = Some pr' /\ matched pr' = matched pr /\ r_id r' = r_id r
+              /\ persisted (r_log r') = persisted (r_log r).
+Proof. exact maybe_commit_self. Qed.
+Print Assumptions C04_node_maybe_commit_self.
+
+Theorem C04_node_bcast_append_self :
+  forall r r',
+  bcast_append r = Ok r' -> get_pr r' (r_id r) = get_pr r (r_id r).
+Proof. exact bcast_append_self. Qed.
+Print Assumptions C04_node_bcast_append_self.
+
+Theorem C04_node_on_persist_entries_self_matched :
+  forall rw r i t r' pr,
+  on_persist_entries r i t = Ok r' -> LI rw r -> get_pr r (r_id r) = Some pr ->
+  exists pr', get_pr r' (r_id r) = Some pr' /\
+    (matched pr' = matched pr
+     \/ (matched pr < i /\ matched pr' = i /\ is_leader r = true
+         /\ persisted (r_log r) < i /\ persisted (r_log r') = i
+         /\ storage_term (store (r_log r)) i = Ok (SOk t))).
+Proof. exact on_persist_entries_self_matched. Qed.
+Print Assumptions C04_node_on_persist_entries_self_matched.
+
+(* (5) the follower *)
+Theorem C04_node_handle_heartbeat_commit :
+  forall rw r m r',
+  handle_heartbeat r m = Ok r' -> LI rw r ->
+  committed (r_log r') = N.max (committed (r_log r)) (m_commit m)
+  /\ committed (r_log r') <= last_index (r_log r')
+  /\ abs (r_log r') = abs (r_log r).
+Proof. exact handle_heartbeat_commit. Qed.
+Print Assumptions C04_node_handle_heartbeat_commit.
+
+Theorem C04_node_handle_heartbeat_panics_1412 :
+  forall rw r m,
+  LI rw r ->
+  (handle_heartbeat r m = Panic site_l_commit_range
+   <-> committed (r_log r) < m_commit m /\ last_index (r_log r) < m_commit m).
+Proof. exact handle_heartbeat_panics_1412. Qed.
+Print Assumptions C04_node_handle_heartbeat_panics_1412.
+
+Import Samples C04Samples.
+
+(* non-vacuity: a persistence notice raises the own matched index and the commit index *)
+Theorem C04_node_ex_persist_commits :
+  exists r' pr pr',
+      on_persist_entries (rn_raft nmid) 1 1 = Ok r'
+      /\ get_pr (rn_raft nmid) 1 = Some pr /\ matched pr = 0 /\ committed (nlog nmid) = 0
+      /\ get_pr r' 1 = Some pr' /\ matched pr' = 1 /\ persisted (r_log r') = 1
+      /\ committed (r_log r') = 1 /\ r_term r' = 1.
+Proof. exact ex_persist_commits. Qed.
+Print Assumptions C04_node_ex_persist_commits.
+
